@@ -6,6 +6,7 @@ class C19(ViewsCheck):
     prop = "C19"
     mode = "index"
     gen_cfg = "GenViews_index.cfg"
+    exh_kind = "index"
     types_thorough = ["f64", "f32", "i32", "i64"]
     rule = ("behaviours = `tlc -generate` walks of GenViews (Mode=index): index-tensor views in every overload form (one flat-offset index "
             "tensor on parents of rank 1-4; per-axis index tensors; index tensor x integer / x fseq on rank 2), index element types int, "
@@ -15,7 +16,7 @@ class C19(ViewsCheck):
             "non-trivial = IndexRead / IndexWrite / MaskWrite events")
     assumptions = ["values are small integers, exact in every element type",
                    "writes use duplicate-free index tensors (the property's precondition)",
-                   "exhaustive enumeration of all index vectors of length <= 4 is not part of this plan (seeded random lengths 1..24)"]
+                   "thorough tier: every index vector of length <= 3 over rank-1 parents of extent <= 5 (295, enumerated and checked by TLC in GenIndexVecs), read, and written when duplicate-free; otherwise seeded random lengths 1..24"]
 
     def nontrivial(self, ev):
         return ev["e"] in ("IndexRead", "IndexWrite", "MaskWrite")
